@@ -532,6 +532,10 @@ def listing_edits(B, rec, case):
             led["aligns"] = [[boff[b]["off"], a] for b, a in t["alignment"] if b in boff]
             nonempty = [b for b in t["blocks"] if b["size"]]
             led["tail_code"] = bool(nonempty[-1]["code"]) if nonempty else True
+        # where the code applied it: offset of the block it edited inside its interval + the offset it used
+        boffs = {b["id"]: b["off"] for b in r["before"]["blocks"]}
+        led["_pos"] = boffs.get(r["do"]["block"], -1) + r["do"]["offset"]
+        led["_base"] = boffs.get(led["block"])
         out.append(led)
     return out
 
